@@ -919,7 +919,9 @@ cnt_cand(const bitint383_t *cand)
 			 (iy) == -2 ? 3U : 4U)
 
 static void
-shift(bitint383_t cand[static NCAND], const unsigned int y, echs_shift_t sh)
+shift(
+	bitint383_t cand[static NCAND], echs_scale_t sca,
+	const unsigned int y, echs_shift_t sh)
 {
 
 	if (LIKELY(!sh)) {
@@ -937,6 +939,7 @@ shift(bitint383_t cand[static NCAND], const unsigned int y, echs_shift_t sh)
 			int nu_d = md.d + d;
 			int nu_m = md.m;
 			unsigned int nu_y = y;
+			int ndim;
 
 		reassess:
 			if (UNLIKELY(nu_d <= 0)) {
@@ -944,11 +947,18 @@ shift(bitint383_t cand[static NCAND], const unsigned int y, echs_shift_t sh)
 				if (UNLIKELY(--nu_m <= 0)) {
 					nu_m += 12, nu_y--;
 				}
-				nu_d += __get_ndom(nu_y, nu_m);
+				if (UNLIKELY(!(ndim = echs_scale_ndim(sca, nu_y, nu_m)))) {
+					/* beyond what the scale knows about */
+					continue;
+				}
+				nu_d += ndim;
 				goto reassess;
-			} else if (UNLIKELY(nu_d > (int)__get_ndom(nu_y, nu_m))) {
+			} else if (UNLIKELY(!(ndim = echs_scale_ndim(sca, nu_y, nu_m)))) {
+				/* beyond what the scale knows about */
+				continue;
+			} else if (UNLIKELY(nu_d > ndim)) {
 				/* fixup too, grrr */
-				nu_d -= __get_ndom(nu_y, nu_m);
+				nu_d -= ndim;
 				if (UNLIKELY(++nu_m > 12)) {
 					nu_m -= 12, nu_y++;
 				}
@@ -978,9 +988,10 @@ shift(bitint383_t cand[static NCAND], const unsigned int y, echs_shift_t sh)
 			int nu_d = md.d;
 			int nu_m = md.m;
 			unsigned int nu_y = y + iy;
-			echs_wday_t w = ymd_get_wday(nu_y, nu_m, nu_d);
+			echs_wday_t w = echs_scale_wday(sca, nu_y, nu_m, nu_d);
 			unsigned int u5, u7;
 			int nu_b = b;
+			int ndim;
 
 			if (w >= SAT) {
 				if (!echs_shift_neg_p(sh)) {
@@ -1011,11 +1022,18 @@ shift(bitint383_t cand[static NCAND], const unsigned int y, echs_shift_t sh)
 				if (UNLIKELY(--nu_m <= 0)) {
 					nu_m += 12, nu_y--;
 				}
-				nu_d += __get_ndom(nu_y, nu_m);
+				if (UNLIKELY(!(ndim = echs_scale_ndim(sca, nu_y, nu_m)))) {
+					/* beyond what the scale knows about */
+					continue;
+				}
+				nu_d += ndim;
 				goto reassessB;
-			} else if (UNLIKELY(nu_d > (int)__get_ndom(nu_y, nu_m))) {
+			} else if (UNLIKELY(!(ndim = echs_scale_ndim(sca, nu_y, nu_m)))) {
+				/* beyond what the scale knows about */
+				continue;
+			} else if (UNLIKELY(nu_d > ndim)) {
 				/* fixup too, grrr */
-				nu_d -= __get_ndom(nu_y, nu_m);
+				nu_d -= ndim;
 				if (UNLIKELY(++nu_m > 12)) {
 					nu_m -= 12, nu_y++;
 				}
@@ -1210,7 +1228,7 @@ rrul_fill_yly(echs_instant_t *restrict tgt, size_t nti, rrulsp_t rr)
 		}
 
 		/* do the shifts */
-		shift(cand, y, rr->shift);
+		shift(cand, srcsca, y, rr->shift);
 
 		/* now check the bitset */
 		for (int iy = -2; iy <= 2; iy++) {
@@ -1436,7 +1454,7 @@ rrul_fill_mly(echs_instant_t *restrict tgt, size_t nti, rrulsp_t rr)
 		}
 
 		/* do the shifts */
-		shift(cand, y, rr->shift);
+		shift(cand, srcsca, y, rr->shift);
 
 		/* now check the bitset */
 		for (int iy = -2; iy <= 2; iy++) {
